@@ -8,7 +8,7 @@ import os
 import re
 import shutil
 
-from extract import LostAnchor, Source, find_fn, extract_part, parse_kv
+from extract import LostAnchor, Source, find_fn, extract_part, parse_kv, region_span
 
 VERIF = os.path.dirname(os.path.dirname(os.path.abspath(__file__)))
 MODULES = ["random", "tensor", "activation", "objective", "optimizer", "convolution", "deconvolution",
@@ -66,6 +66,72 @@ def expand_regions(h, repo, module):
     return "\n".join(out), drops
 
 
+def expand_slices(h, repo, module):
+    """`//@slice fn=NAME impl=T src=FN sig="..." protect=a,b,c` ... `//@endslice` with lines
+         //@drop /re1/../re2/ [#occ]        statements removed (after a syntactic non-interference scan)
+         //@subst /regex/ -> "replacement"  named sub-expressions replaced by an oracle / parameter
+    emits `impl T { pub fn NAME SIG { <body of T::FN with those edits, everything else verbatim> } }`."""
+    lines = h.split("\n")
+    out, drops = [], []
+    i = 0
+    while i < len(lines):
+        st = lines[i].strip()
+        if not st.startswith("//@slice "):
+            out.append(lines[i])
+            i += 1
+            continue
+        kv = parse_kv(st[len("//@slice "):])
+        dl, sl = [], []
+        i += 1
+        while lines[i].strip() != "//@endslice":
+            d = lines[i].strip()
+            m = re.match(r"//@drop\s+/(.+?)/\.\./(.+?)/\s*(?:#(\d+))?$", d)
+            if m:
+                dl.append((m.group(1), m.group(2), int(m.group(3) or 1)))
+            else:
+                m = re.match(r"//@subst\s+/(.+)/\s*->\s*\"(.*)\"$", d)
+                if m:
+                    sl.append((m.group(1), m.group(2)))
+                elif d and not d.startswith("// "):
+                    raise LostAnchor("bad line in //@slice block: %s" % d)
+            i += 1
+        i += 1
+        body, first, desc = extract_part(repo, dict(file="src/%s.rs" % module, impl=kv.get("impl"), fn=kv["src"], part="whole"))
+        protect = [x for x in kv.get("protect", "").split(",") if x]
+        spans = []
+        for re1, re2, occ in dl:
+            s0, e0 = region_span(body, re1, re2, occ)
+            spans.append((s0, e0, re1))
+        spans.sort()
+        for (s0, e0, re1) in spans:
+            dropped = body[s0:e0]
+            code = re.sub(r"//[^\n]*", "", dropped)
+            code = re.sub(r'"(?:[^"\\\\]|\\\\.)*"', '""', code)
+            if re.search(r"\b(break|continue|return)\b", code):
+                raise LostAnchor("slice %s: dropped statement /%s/ contains control flow (break/continue/return)" % (kv["fn"], re1))
+            for v in protect:
+                if re.search(r"\b%s\b\s*(\.\s*push\s*\(|=[^=]|\+=|-=|\*=|/=)" % re.escape(v), code) or \
+                        re.search(r"\.\s*%s\s*=[^=]" % re.escape(v), code):
+                    raise LostAnchor("slice %s: dropped statement /%s/ writes protected variable `%s`" % (kv["fn"], re1, v))
+            l0 = first + body.count("\n", 0, s0)
+            l1 = first + body.count("\n", 0, e0)
+            drops.append("slice %s: dropped lines %d-%d of %s::%s (starts `%s`); scanned: no write to {%s}, no break/continue/return"
+                         % (kv["fn"], l0, l1, kv.get("impl", ""), kv["src"], " ".join(dropped.split())[:60], ",".join(protect)))
+        for (s0, e0, _) in reversed(spans):
+            body = body[:s0] + "/* [slice] dropped */" + body[e0:]
+        for rx, rep in sl:
+            n = len(re.findall(rx, body))
+            if n == 0:
+                raise LostAnchor("slice %s: substitution anchor /%s/ not found" % (kv["fn"], rx))
+            body = re.sub(rx, lambda _m: rep, body)
+            drops.append("slice %s: %d occurrence(s) of /%s/ replaced by `%s`" % (kv["fn"], n, rx, rep))
+        fn = "pub fn %s%s {\n%s\n}" % (kv["fn"], kv["sig"], body)
+        if kv.get("impl"):
+            fn = "impl %s {\n%s\n}" % (kv["impl"], fn)
+        out.append(fn)
+    return "\n".join(out), drops
+
+
 def weave_attrs(text, path, impl, fn, attrs):
     import tempfile
     with tempfile.NamedTemporaryFile("w", suffix=".rs", delete=False) as tf:
@@ -108,6 +174,8 @@ def make_crate(repo, dest, harness_files, extra_lib="", native_files=None):
             h, weaves = split_weaves(h)
             h, rdrops = expand_regions(h, repo, m)
             drops += rdrops
+            h, sdrops = expand_slices(h, repo, m)
+            drops += sdrops
             for impl, fn, attrs in weaves:
                 text = weave_attrs(text, p, impl, fn, attrs)
                 drops.append("mirror: %d contract attribute line(s) woven before `%s::%s` in %s.rs (attributes only; body untouched)"
